@@ -1,5 +1,168 @@
-"""cnvlib/fix.py: the edge-effect formulas, translated elementwise (numpy vector code read per element:
-`v[mask]` is v under the guard `mask`, `v[mask] -= e` updates where the mask holds)."""
+"""cnvlib/fix.py, translated elementwise (numpy vector code read per element: `v[mask]` is v under the guard `mask`,
+`v[mask] -= e` updates where the mask holds).
+
+FnFix      edge_losses / edge_gains                                   (C04_source_edge_*)
+FnFixMask  mask_bad_bins, per reference row, in three fragments: the three comparisons against the params constants,
+           the `if "depth" in cnarr` statement, the gc bounds + comparison inside `if "gc" in cnarr`
+           (that `if` holds two `assert` statements, which the translator does not read; its guard is checked
+           here by `ast` instead)                                      (C04_source_mask_bad_bins)
+FnFixWeights  apply_weights, per bin: the size weight `1 - var / (bin_sz / bin_sz.mean())` for both classes (np.sqrt
+           of the size and the class mean are opaque scalar inputs), the 0.9/0.1 blend, the final clip, and the two
+           per-row tests of the pooled-reference condition                (C04_source_weights)
+(get_edge_bias' per-tile combination `gains[np.concatenate([[False], ok_gaps_mask])] += left_gains` does not fit the
+translator: desugar() does not descend into `for` bodies and the direct masked update needs a plain-name mask.)
+
+Expressions that are not statements of their own (the `weight=` keyword of the final return, the two `.any()`
+operands of the pooled-reference test) are located here with `ast`, their
+surrounding shape is checked (fail-closed: otherwise the fragment is made unfindable and the translator refuses), and
+their source text is handed over through `returns=`."""
+import ast, os, sys
+
+
+def _repo():
+    for name in ('py2v_fn', '__main__'):
+        m = sys.modules.get(name)
+        if m is not None and hasattr(m, 'REPO') and hasattr(m, 'FnTranslator'):
+            return m.REPO
+    return os.environ.get('CNVKIT_REPO', '/repo')
+
+
+def _func(name):
+    src = open(os.path.join(_repo(), 'cnvlib/fix.py')).read()
+    for n in ast.walk(ast.parse(src)):
+        if isinstance(n, ast.FunctionDef) and n.name == name:
+            return n
+    raise ValueError('no function %s' % name)
+
+
+def _bad(exc):
+    return '<cnvlib/fix.py no longer has the expected shape: %s>' % exc
+
+
+# ---- mask_bad_bins ------------------------------------------------------------------------------------------
+def _mask_shape():
+    """mask_bad_bins is: docstring; mask = ...; if "depth" in cnarr: mask |= ...; if "gc" in cnarr: assert; assert;
+    lower = ...; upper = ...; mask |= ...; return mask"""
+    fn = _func('mask_bad_bins')
+    body = [s for s in fn.body if not (isinstance(s, ast.Expr) and isinstance(s.value, ast.Constant))]
+    if len(body) != 4:
+        raise ValueError('mask_bad_bins has %d statements' % len(body))
+    a, d, g, r = body
+    if not (isinstance(a, ast.Assign) and ast.unparse(a.targets[0]) == 'mask'):
+        raise ValueError('first statement is not mask = ...')
+    if not (isinstance(d, ast.If) and ast.unparse(d.test) == "'depth' in cnarr" and not d.orelse and len(d.body) == 1
+            and isinstance(d.body[0], ast.AugAssign) and isinstance(d.body[0].op, ast.BitOr)
+            and ast.unparse(d.body[0].target) == 'mask'):
+        raise ValueError('second statement is not `if "depth" in cnarr: mask |= ...`')
+    if not (isinstance(g, ast.If) and ast.unparse(g.test) == "'gc' in cnarr" and not g.orelse):
+        raise ValueError('third statement is not `if "gc" in cnarr:`')
+    rest = [s for s in g.body if not isinstance(s, ast.Assert)]
+    if [type(s) for s in rest] != [ast.Assign, ast.Assign, ast.AugAssign] or \
+            [ast.unparse(s.targets[0]) for s in rest[:2]] != ['lower_gc_bound', 'upper_gc_bound'] or \
+            not (isinstance(rest[2].op, ast.BitOr) and ast.unparse(rest[2].target) == 'mask'):
+        raise ValueError('the gc block is not asserts; lower_gc_bound = ; upper_gc_bound = ; mask |= ')
+    if not (isinstance(r, ast.Return) and ast.unparse(r.value) == 'mask'):
+        raise ValueError('mask_bad_bins does not return mask')
+
+
+def _mask_specs():
+    try:
+        _mask_shape()
+        f1, f2, f3a, f3b = 'mask = ', "if 'depth' in cnarr", 'lower_gc_bound = ', 'mask = mask | '
+    except Exception as exc:   # noqa -- fail closed
+        f1 = f2 = f3a = f3b = _bad(exc)
+    consts = [('params.MIN_REF_COVERAGE', 'Q', 'min_ref_coverage'), ('params.MAX_REF_SPREAD', 'Q', 'max_ref_spread')]
+    return [
+        dict(name='mask_bad_bins', coq='fn_mask_cover', py_params=['cnarr'],
+             params=[("cnarr['log2']", 'Q', 'log2_'), ("cnarr['spread']", 'Q', 'spread')] + consts,
+             fragment={'first': f1, 'last': f1}, returns=['mask'], ret='B'),
+        dict(name='mask_bad_bins', coq='fn_mask_depth', py_params=['cnarr'],
+             params=[('mask', 'B'), ("'depth' in cnarr", 'B', 'has_depth'), ("cnarr['depth']", 'Q', 'depth')],
+             fragment={'first': f2, 'last': f2}, returns=['mask'], ret='B'),
+        dict(name='mask_bad_bins', coq='fn_mask_gc', py_params=['cnarr'],
+             params=[('mask', 'B'), ("cnarr['gc']", 'Q', 'gc'),
+                     ('params.GC_MIN_FRACTION', 'Q', 'gc_min_fraction'),
+                     ('params.GC_MAX_FRACTION', 'Q', 'gc_max_fraction')],
+             fragment={'first': f3a, 'last': f3b}, returns=['mask'], ret='B'),
+    ]
+
+
+# ---- apply_weights -------------------------------------------------------------------------------------------
+def _weights_shape():
+    """the tail of apply_weights is
+         if (ref_matched[spread_key] > epsilon).any() and (np.abs(np.mod(ref_matched[log2_key], 1)) > epsilon).any():
+             ...; fancy_wt = ...; x = ...; weights = ...
+         else:
+             weights = simple_wt
+         return cnarr.add_columns(weight=<clip expression>)
+    returns (clip expression, first per-row test, second per-row test) as source text"""
+    fn = _func('apply_weights')
+    if [a.arg for a in fn.args.args] != ['cnarr', 'ref_matched', 'log2_key', 'spread_key', 'epsilon']:
+        raise ValueError('apply_weights parameters changed')
+    iff, ret = fn.body[-2], fn.body[-1]
+    if not (isinstance(ret, ast.Return) and isinstance(ret.value, ast.Call)
+            and ast.unparse(ret.value.func) == 'cnarr.add_columns' and not ret.value.args
+            and [k.arg for k in ret.value.keywords] == ['weight']):
+        raise ValueError('last statement is not return cnarr.add_columns(weight=...)')
+    clip = ast.unparse(ret.value.keywords[0].value)
+    if not isinstance(iff, ast.If):
+        raise ValueError('the statement before the return is not the pooled/flat if')
+    t = iff.test
+    if not (isinstance(t, ast.BoolOp) and isinstance(t.op, ast.And) and len(t.values) == 2):
+        raise ValueError('pooled test is not a two-way `and`')
+    tests = []
+    for v in t.values:
+        if not (isinstance(v, ast.Call) and isinstance(v.func, ast.Attribute) and v.func.attr == 'any'
+                and not v.args and not v.keywords):
+            raise ValueError('pooled test operand is not <row test>.any()')
+        tests.append(ast.unparse(v.func.value))
+    if not (len(iff.orelse) == 1 and ast.unparse(iff.orelse[0]) == 'weights = simple_wt'):
+        raise ValueError('else branch is not weights = simple_wt')
+    assigns = [s for s in iff.body if isinstance(s, ast.Assign)]
+    others = [s for s in iff.body if not isinstance(s, ast.Assign)]
+    if [ast.unparse(s.targets[0]) for s in assigns] != ['fancy_wt', 'x', 'weights'] or \
+            any(not (isinstance(s, ast.Expr) and ast.unparse(s.value).startswith('logging.')) for s in others):
+        raise ValueError('then branch is not fancy_wt = ; x = ; weights = ')
+    # the size weights feed simple_wt by class: simple_wt[~is_anti] = tgt_simple_wts ; simple_wt[is_anti] = anti_simple_wts
+    srcs = [ast.unparse(s) for s in ast.walk(fn) if isinstance(s, ast.Assign)]
+    for need in ('simple_wt[~is_anti] = tgt_simple_wts', 'simple_wt[is_anti] = anti_simple_wts',
+                 'simple_wt = np.zeros(len(cnarr))'):
+        if srcs.count(need) != 1:
+            raise ValueError('missing statement %s' % need)
+    return clip, tests[0], tests[1]
+
+
+def _weights_specs():
+    try:
+        clip, t1, t2 = _weights_shape()
+        ft, fa, fb0, fb1, ff = 'tgt_simple_wts = ', 'anti_simple_wts = ', 'fancy_wt = ', 'weights = x * ', 'weights = simple_wt'
+    except Exception as exc:   # noqa -- fail closed
+        clip, t1, t2 = 'weights', 'epsilon > epsilon', 'epsilon > epsilon'
+        ft = fa = fb0 = fb1 = ff = _bad(exc)
+    pyp = ['cnarr', 'ref_matched', 'log2_key', 'spread_key', 'epsilon']
+    return [
+        dict(name='apply_weights', coq='fn_tgt_simple_wt', py_params=pyp,
+             params=[('tgt_var', 'Q'), ('bin_sz', 'Q'), ('bin_sz.mean()', 'Q', 'mean_sz')],
+             fragment={'first': ft, 'last': ft}, returns=['tgt_simple_wts'], ret='Q'),
+        dict(name='apply_weights', coq='fn_anti_simple_wt', py_params=pyp,
+             params=[('anti_var', 'Q'), ('anti_bin_sz', 'Q'), ('anti_bin_sz.mean()', 'Q', 'mean_sz')],
+             fragment={'first': fa, 'last': fa}, returns=['anti_simple_wts'], ret='Q'),
+        # pooled reference: fancy_wt, x, weights, then the clip of the return statement
+        dict(name='apply_weights', coq='fn_weight_pooled', py_params=pyp,
+             params=[('ref_matched[spread_key]', 'Q', 'spread'), ('simple_wt', 'Q'), ('epsilon', 'Q')],
+             fragment={'first': fb0, 'last': fb1}, returns=[clip], ret='Q'),
+        # flat reference: weights = simple_wt, then the clip
+        dict(name='apply_weights', coq='fn_weight_flat', py_params=pyp,
+             params=[('simple_wt', 'Q'), ('epsilon', 'Q')],
+             fragment={'first': ff, 'last': ff}, returns=[clip], ret='Q'),
+        # the two per-row tests under .any() in the pooled-reference condition (np.mod(log2, 1) is an opaque input)
+        dict(name='apply_weights', coq='fn_pooled_tests', py_params=pyp,
+             params=[('ref_matched[spread_key]', 'Q', 'spread'), ('np.mod(ref_matched[log2_key], 1)', 'Q', 'log2_mod1'),
+                     ('simple_wt', 'Q'), ('epsilon', 'Q')],
+             fragment={'first': ff, 'last': ff}, returns=[t1, t2], ret=['B', 'B']),
+    ]
+
+
 MODULES = {
     'FnFix': ('cnvlib/fix.py', [
         dict(name='edge_losses', coq='fn_edge_losses',
@@ -7,4 +170,6 @@ MODULES = {
         dict(name='edge_gains', coq='fn_edge_gains',
              params=[('target_sizes', 'Z'), ('gap_sizes', 'Z'), ('insert_size', 'Z')], ret='Q'),
     ]),
+    'FnFixMask': ('cnvlib/fix.py', _mask_specs()),
+    'FnFixWeights': ('cnvlib/fix.py', _weights_specs()),
 }
